@@ -33,6 +33,10 @@ def specWindow (li : Idx) (H W kh kw sh sw i j : Nat) : List Idx :=
 def padRead (x : Arr Int) (L p ch j : Nat) : Int :=
   if p ≤ j ∧ j < L + p then x.get [0, ch, j - p] else 0
 
+/-- zero-padded read of a `(1, C, H, W)` input at padded position `(i, j)` -/
+def padRead2 (x : Arr Int) (H W p ch i j : Nat) : Int :=
+  if (p ≤ i ∧ i < H + p) ∧ (p ≤ j ∧ j < W + p) then x.get [0, ch, i - p, j - p] else 0
+
 /-- `stride=None` means 1, `padding=None` means 0, `dilation=None` means 1 -/
 def strideOf : Option Nat → Nat | none => 1 | some s => s
 def paddingOf : Option Nat → Nat | none => 0 | some p => p
@@ -42,6 +46,13 @@ def dilationOf : Option Nat → Nat | none => 1 | some d => d
     `out[0,o,l] = bias[o] + Σ_{c < C/g} Σ_{k < K} xpad[0, grp(o)·(C/g) + c, l·s + k·d] · w[o,c,k]` -/
 def conv1dLoop (grp : Nat → Nat) (x w : Arr Int) (bias : Option (Arr Int)) (L Cg K s p d : Nat) (o l : Nat) : Int :=
   sumTo Cg (fun c => sumTo K (fun k => padRead x L p (grp o * Cg + c) (l * s + k * d) * w.get [o, c, k]))
+    + (match bias with | none => 0 | some b => b.get [o])
+
+/-- nested-loop conv2d (same stride / padding / dilation on both planes), one output element:
+    `out[0,o,i,j] = bias[o] + Σ_c Σ_kh Σ_kw xpad[0, grp(o)·(C/g) + c, i·s + kh·d, j·s + kw·d] · w[o,c,kh,kw]` -/
+def conv2dLoop (grp : Nat → Nat) (x w : Arr Int) (bias : Option (Arr Int)) (H W Cg KH KW s p d : Nat) (o i j : Nat) : Int :=
+  sumTo Cg (fun c => sumTo KH (fun kh => sumTo KW (fun kw =>
+      padRead2 x H W p (grp o * Cg + c) (i * s + kh * d) (j * s + kw * d) * w.get [o, c, kh, kw])))
     + (match bias with | none => 0 | some b => b.get [o])
 
 /-- PyTorch: output channel `o` belongs to group `o / (O/groups)` -/
